@@ -2,7 +2,7 @@ SPECIFICATION Spec
 CONSTANTS
   Jobs = {"j1", "j2", "j3"}
   Waiters = {"w1"}
-  Kinds = {"ok", "error"}
+  Kinds = {"ok", "error", "eof"}
   Modes = {"gate"}
   Comps = {"hpool"}
   Workers = {2}
